@@ -1,14 +1,16 @@
 #!/bin/bash
-# tools/intake.sh Cxx : take the two changes a sub-agent left in /tmp/seed2/Cxx.out/{m3,m4}, confirm them, run the checks, clean up
+# tools/intake.sh Cxx [root=/tmp/seed2] ["m3 m4"] : take the changes a sub-agent left in <root>/Cxx.out/<m>, confirm them, run the checks, clean up
 id=$1
+root=${2:-/tmp/seed2}
+ms=${3:-"m3 m4"}
 export MUT_ROOT=/tmp/mutin_$id
 cd /verif
-for m in m3 m4; do
-  src=/tmp/seed2/$id.out/$m
+for m in $ms; do
+  src=$root/$id.out/$m
   [ -f $src/patch.diff ] || { echo "RESULT seeded/$id-$m: nothing delivered"; continue; }
   mkdir -p seeded/$id-$m; cp $src/patch.diff $src/demo.sh $src/notes.md seeded/$id-$m/ 2>/dev/null
   ./seedtool.sh validate seeded/$id-$m 2>&1 | grep -E "suite with patch|RESULT" | tee -a work/validate_$id.log
   ./seedtool.sh detect seeded/$id-$m $id $(cat seeded/$id-$m/also.txt 2>/dev/null) 2>&1 | grep -v "^note" | tee -a work/detect_$id.log | grep -E "^DETECT|^    "
 done
 ./seedtool.sh clean
-git -C /repo worktree remove --force /tmp/seed2/$id 2>/dev/null; rm -rf /tmp/seed2/$id
+git -C /repo worktree remove --force $root/$id 2>/dev/null; rm -rf $root/$id
